@@ -15,6 +15,9 @@ type GenOpts struct {
 	CapOverride float64
 	// probability that bound pods' events are delivered before their node's (see Scenario.PodEventsFirst)
 	PodEventsFirst float64
+	// probability that a NodePool carries a second taint (before or after the first) and that a pod carries a second
+	// toleration: pods that tolerate only SOME of a node's taints
+	MultiTaint float64
 	Existing     float64 // probability scale for existing nodes
 	Reserved     bool    // generate reserved offerings and enable the feature gate
 	Limits       float64 // probability that a pool has limits
@@ -104,6 +107,17 @@ func GenPools(r *rand.Rand, its []IT, o GenOpts) []NodePool {
 		}
 		if r.Float64() < 0.25 {
 			np.Taints = append(np.Taints, Taint{Key: "dedicated", Value: pick(r, []string{"x", "y"}), Effect: pick(r, []string{"NoSchedule", "NoExecute", "PreferNoSchedule"})})
+		}
+		if o.MultiTaint > 0 && r.Float64() < o.MultiTaint {
+			second := Taint{Key: "other", Value: "", Effect: "NoSchedule"}
+			if len(np.Taints) == 0 {
+				np.Taints = append(np.Taints, Taint{Key: "dedicated", Value: pick(r, []string{"x", "y"}), Effect: pick(r, []string{"NoSchedule", "NoExecute"})})
+			}
+			if r.Float64() < 0.5 {
+				np.Taints = append(np.Taints, second)
+			} else {
+				np.Taints = append([]Taint{second}, np.Taints...)
+			}
 		}
 		if r.Float64() < 0.2 {
 			np.StartupTaints = append(np.StartupTaints, Taint{Key: "startup", Value: "", Effect: "NoSchedule"})
@@ -202,6 +216,12 @@ func GenPod(r *rand.Rand, name string, its []IT, pools []NodePool, o GenOpts) Po
 		p.CPU = int64(3000 + r.IntN(6)*1000)
 	}
 	p.Tolerations = genTolerations(r)
+	if o.MultiTaint > 0 && r.Float64() < o.MultiTaint {
+		p.Tolerations = append(p.Tolerations, genTolerations(r)...)
+		if len(p.Tolerations) == 0 {
+			p.Tolerations = append(p.Tolerations, Toleration{Key: pick(r, []string{"dedicated", "other"}), Operator: "Exists"})
+		}
+	}
 	p.HostPorts = genHostPorts(r)
 	if r.Float64() < o.NodeAffinity {
 		switch r.IntN(5) {
